@@ -1,4 +1,339 @@
-(* placeholder while the proofs are being written *)
-From Coq Require Import ZArith QArith Qcanon List Bool.
-From SVP Require Import Base.Num Base.Cplx Model.Parse Model.Lexer.
+(* Props/C02.v — property C02: parse_path implements the SVG path-data
+   semantics for every command sequence.  Only statements, `exact`, closed
+   witnesses by vm_compute, and Print Assumptions live here.
+
+   Models: Model/Parse.v (impl_parse = the while-loop of Path._parse_path, in
+   four variants (none_ok, coinc_ok); (false,false) is the pinned code;
+   spec_run = reference interpreter of SVG 1.1 §8.3), Model/Lexer.v
+   (tokenize = Path._tokenize_path with Python's regex semantics).
+   Proofs: Proofs/ParseRefine.v, ParseCorollaries.v, LexerScan.v, LexerRender.v.
+
+   Which variant of impl_parse the code of /repo is, is established on every
+   run by the correspondence check (tools/harness/c02.py, evidence field
+   code_is_variant). *)
+From Coq Require Import ZArith QArith Qcanon List Bool Ascii String.
+From SVP Require Import Base.Num Base.Cplx Model.Parse Model.Lexer
+     Proofs.ParseRefine Proofs.ParseCorollaries Proofs.LexerScan Proofs.LexerRender.
 Import ListNotations.
+Local Open Scope list_scope.
+
+(* ================================================================== *)
+(* Refinement: every grammatical program, of any length                *)
+(* ================================================================== *)
+Section C02.
+  Context {K : Type} (N : Num K) (L : ParseLawsOK N).
+
+  (* all four variants at once: each side condition is needed only while the
+     corresponding behaviour of the code is the pinned one *)
+  Theorem C02_refines_general : forall (none_ok coinc_ok : bool) pos0 prog,
+      grammatical prog = true ->
+      (none_ok = true \/ no_smooth_after_close prog = true) ->
+      (coinc_ok = true \/ no_coincident_arc N pos0 prog = true) ->
+      impl_parse N none_ok coinc_ok (flatten N prog) pos0 = Ok (spec_run N pos0 prog).
+  Proof. exact (refines_general N L). Qed.
+
+  (* the full statement: holds for the variant in which `None in 'CS'` does not
+     raise and an arc ending on the current point is omitted *)
+  Theorem C02_refines : forall pos0 prog,
+      grammatical prog = true ->
+      impl_parse N true true (flatten N prog) pos0 = Ok (spec_run N pos0 prog).
+  Proof.
+    intros pos0 prog G. apply (refines_general N L); [exact G|left; reflexivity|left; reflexivity].
+  Qed.
+
+  (* the pinned code: under the two side conditions that exclude exactly the
+     two refuted situations below *)
+  Theorem C02_refines_partial : forall pos0 prog,
+      grammatical prog = true ->
+      no_smooth_after_close prog = true ->
+      no_coincident_arc N pos0 prog = true ->
+      impl_parse N false false (flatten N prog) pos0 = Ok (spec_run N pos0 prog).
+  Proof.
+    intros pos0 prog G A B. apply (refines_general N L); [exact G|right; exact A|right; exact B].
+  Qed.
+
+  (* ---- what single commands contribute (on the model of the code, any variant) ---- *)
+  Section Variant.
+    Variables none_ok coinc_ok : bool.
+    Notation side_ok := (side_ok N none_ok coinc_ok).
+    Notation parse := (impl_parse N none_ok coinc_ok).
+
+    Theorem C02_zero_radius_arc_is_line : forall pos0 prog abs a,
+        side_ok pos0 (prog ++ [ArcTo abs [a]]) ->
+        re (aa_r a) = zero N \/ im (aa_r a) = zero N ->
+        let cur := s_cur (spec_state N pos0 prog) in
+        let e := to_abs N abs cur (aa_end a) in
+        cur <> e ->
+        parse (flatten N (prog ++ [ArcTo abs [a]])) pos0 = Ok (spec_run N pos0 prog ++ [Line cur e]).
+    Proof. exact (zero_radius_arc_is_line N L none_ok coinc_ok). Qed.
+
+    Theorem C02_arc_is_arc : forall pos0 prog abs a,
+        side_ok pos0 (prog ++ [ArcTo abs [a]]) ->
+        re (aa_r a) <> zero N -> im (aa_r a) <> zero N ->
+        let cur := s_cur (spec_state N pos0 prog) in
+        let e := to_abs N abs cur (aa_end a) in
+        cur <> e ->
+        parse (flatten N (prog ++ [ArcTo abs [a]])) pos0
+        = Ok (spec_run N pos0 prog ++
+              [Arc cur (mkc (nabs N (re (aa_r a))) (nabs N (im (aa_r a)))) (aa_rot a)
+                   (aa_large a) (aa_sweep a) e]).
+    Proof. exact (arc_is_arc N L none_ok coinc_ok). Qed.
+
+    Theorem C02_close_at_start_adds_nothing : forall pos0 prog up,
+        side_ok pos0 (prog ++ [Close up]) ->
+        s_cur (spec_state N pos0 prog) = s_start (spec_state N pos0 prog) ->
+        parse (flatten N (prog ++ [Close up])) pos0 = Ok (spec_run N pos0 prog).
+    Proof. exact (close_at_start_adds_nothing N L none_ok coinc_ok). Qed.
+
+    Theorem C02_close_elsewhere_adds_line : forall pos0 prog up,
+        side_ok pos0 (prog ++ [Close up]) ->
+        s_cur (spec_state N pos0 prog) <> s_start (spec_state N pos0 prog) ->
+        parse (flatten N (prog ++ [Close up])) pos0
+        = Ok (spec_run N pos0 prog ++
+              [Line (s_cur (spec_state N pos0 prog)) (s_start (spec_state N pos0 prog))]).
+    Proof. exact (close_elsewhere_adds_line N L none_ok coinc_ok). Qed.
+
+    Theorem C02_smooth_fallback : forall pos0 prog abs c2 e,
+        side_ok pos0 (prog ++ [SmoothTo abs [(c2, e)]]) ->
+        ends_with_cubic prog = false ->
+        let cur := s_cur (spec_state N pos0 prog) in
+        parse (flatten N (prog ++ [SmoothTo abs [(c2, e)]])) pos0
+        = Ok (spec_run N pos0 prog ++ [Cubic cur cur (to_abs N abs cur c2) (to_abs N abs cur e)]).
+    Proof. exact (smooth_fallback N L none_ok coinc_ok). Qed.
+
+    Theorem C02_smooth_reflects : forall pos0 prog abs c2 e,
+        side_ok pos0 (prog ++ [SmoothTo abs [(c2, e)]]) ->
+        ends_with_cubic prog = true ->
+        let cur := s_cur (spec_state N pos0 prog) in
+        exists s c1 pc2 rest,
+          rev (spec_run N pos0 prog) = Cubic s c1 pc2 cur :: rest /\
+          parse (flatten N (prog ++ [SmoothTo abs [(c2, e)]])) pos0
+          = Ok (spec_run N pos0 prog ++
+                [Cubic cur (reflect N cur pc2) (to_abs N abs cur c2) (to_abs N abs cur e)]).
+    Proof. exact (smooth_reflects N L none_ok coinc_ok). Qed.
+
+    Theorem C02_t_fallback : forall pos0 prog abs e,
+        side_ok pos0 (prog ++ [TTo abs [e]]) ->
+        ends_with_quad prog = false ->
+        let cur := s_cur (spec_state N pos0 prog) in
+        parse (flatten N (prog ++ [TTo abs [e]])) pos0
+        = Ok (spec_run N pos0 prog ++ [Quad cur cur (to_abs N abs cur e)]).
+    Proof. exact (t_fallback N L none_ok coinc_ok). Qed.
+
+    Theorem C02_lineto_rel_abs : forall pos0 prog abs p,
+        side_ok pos0 (prog ++ [LineTo abs [p]]) ->
+        let cur := s_cur (spec_state N pos0 prog) in
+        parse (flatten N (prog ++ [LineTo abs [p]])) pos0
+        = Ok (spec_run N pos0 prog ++ [Line cur (if abs then p else cadd N cur p)]).
+    Proof. exact (lineto_rel_abs N L none_ok coinc_ok). Qed.
+
+    (* moveto with further pairs = moveto + lineto of the same case *)
+    Theorem C02_moveto_extra_pairs_are_lineto : forall pos0 abs p more post,
+        more <> [] ->
+        side_ok pos0 (MoveTo abs (p :: more) :: post) ->
+        side_ok pos0 (MoveTo abs [p] :: LineTo abs more :: post) ->
+        parse (flatten N (MoveTo abs (p :: more) :: post)) pos0
+        = parse (flatten N (MoveTo abs [p] :: LineTo abs more :: post)) pos0
+        /\ spec_run N pos0 (MoveTo abs (p :: more) :: post)
+           = spec_run N pos0 (MoveTo abs [p] :: LineTo abs more :: post).
+    Proof. exact (moveto_extra_pairs_are_lineto N L none_ok coinc_ok). Qed.
+
+    (* a repeated command letter = implicit repetition, for all nine commands *)
+    Theorem C02_repeated_letter_same_path : forall pos0 pre post c c1 c2,
+        cmd_split c c1 c2 ->
+        side_ok pos0 (pre ++ c :: post) -> side_ok pos0 (pre ++ c1 :: c2 :: post) ->
+        parse (flatten N (pre ++ c :: post)) pos0 = parse (flatten N (pre ++ c1 :: c2 :: post)) pos0.
+    Proof. exact (repeated_letter_same_path N L none_ok coinc_ok). Qed.
+  End Variant.
+
+  Theorem C02_spec_repeated_letter : forall pos0 pre post c c1 c2,
+      cmd_split c c1 c2 ->
+      spec_run N pos0 (pre ++ c :: post) = spec_run N pos0 (pre ++ c1 :: c2 :: post).
+  Proof. exact (spec_run_split N). Qed.
+End C02.
+
+(* the carriers the check executes / the reals *)
+Definition C02_refines_partial_Q := C02_refines_partial NumQ parse_laws_Q.
+Definition C02_refines_partial_R := C02_refines_partial NumR parse_laws_R.
+Definition C02_refines_Q := C02_refines NumQ parse_laws_Q.
+
+(* ================================================================== *)
+(* The pinned code violates the full statement: witnesses              *)
+(* ================================================================== *)
+Definition q (n : Z) : Qc := Q2Qc (inject_Z n).
+Definition p (a b : Z) : Cplx Qc := (q a, q b).
+Definition O : Cplx Qc := p 0 0.
+
+(* M0,0 L1,1 Z S 2,2 3,3 *)
+Definition w_S_after_Z : list (command Qc) :=
+  [MoveTo true [p 0 0]; LineTo true [p 1 1]; Close true; SmoothTo true [(p 2 2, p 3 3)]].
+Definition w_T_after_Z : list (command Qc) :=
+  [MoveTo true [p 0 0]; LineTo true [p 1 1]; Close true; TTo true [p 2 2]].
+(* M1,1 A2,2 0 0 1 1,1 *)
+Definition w_arc_coincident : list (command Qc) :=
+  [MoveTo true [p 1 1]; ArcTo true [mkArcArgs (p 2 2) (q 0) false true (p 1 1)]].
+(* M1,1 A0,2 0 0 1 1,1 : the zero-radius case yields a zero-length Line *)
+Definition w_arc_coincident_zero : list (command Qc) :=
+  [MoveTo true [p 1 1]; ArcTo true [mkArcArgs (p 0 2) (q 0) false true (p 1 1)]].
+
+Definition res_eqb (a b : result (list (seg Qc))) : bool :=
+  match a, b with
+  | Ok x, Ok y => segs_eqb NumQ x y
+  | Err e, Err f => perr_eqb e f
+  | _, _ => false
+  end.
+
+Theorem C02_S_after_Z_refuted :
+  grammatical w_S_after_Z = true /\ no_coincident_arc NumQ O w_S_after_Z = true
+  /\ impl_parse NumQ false false (flatten NumQ w_S_after_Z) O = Err TypeError
+  /\ res_eqb (impl_parse NumQ true false (flatten NumQ w_S_after_Z) O)
+             (Ok (spec_run NumQ O w_S_after_Z)) = true
+  /\ List.length (spec_run NumQ O w_S_after_Z) = 3%nat.
+Proof. vm_compute. repeat split. Qed.
+
+Theorem C02_T_after_Z_refuted :
+  grammatical w_T_after_Z = true
+  /\ impl_parse NumQ false false (flatten NumQ w_T_after_Z) O = Err TypeError
+  /\ List.length (spec_run NumQ O w_T_after_Z) = 3%nat.
+Proof. vm_compute. repeat split. Qed.
+
+Theorem C02_arc_coincident_refuted :
+  grammatical w_arc_coincident = true /\ no_smooth_after_close w_arc_coincident = true
+  /\ impl_parse NumQ false false (flatten NumQ w_arc_coincident) O = Err AssertionError
+  /\ spec_run NumQ O w_arc_coincident = []
+  /\ res_eqb (impl_parse NumQ false false (flatten NumQ w_arc_coincident_zero) O)
+             (Ok [Line (p 1 1) (p 1 1)]) = true
+  /\ spec_run NumQ O w_arc_coincident_zero = [].
+Proof. vm_compute. repeat split. Qed.
+
+(* the same on the raw strings, through the tokenizer model *)
+Theorem C02_refuted_on_strings :
+  parse_string false false "M0,0 L1,1 Z S 2,2 3,3" O = Err TypeError
+  /\ parse_string false false "M0,0 L1,1 z t 2,2" O = Err TypeError
+  /\ parse_string false false "M1,1 A2,2 0 0 1 1,1" O = Err AssertionError.
+Proof. vm_compute. repeat split. Qed.
+
+(* non-vacuity: a program with every command, relative and absolute forms,
+   implicit repetition, S after C, T after Q, drawing after closepath, a
+   zero-radius arc, satisfies the hypotheses of C02_refines_partial; and the
+   model does produce its 16 segments *)
+Definition w_all : list (command Qc) :=
+  [MoveTo false [p 1 1; p 2 0; p 0 2];
+   HTo true [q 7; q 8]; VTo false [q 3];
+   CurveTo true [(p 1 2, p 3 4, p 5 6)]; SmoothTo false [(p 1 1, p 2 2); (p 1 0, p 3 1)];
+   QuadTo false [(p 1 5, p 2 2)]; TTo true [p 9 9; p 12 7];
+   ArcTo true [mkArcArgs (p 3 2) (q 30) true false (p 20 20); mkArcArgs (p 0 2) (q 0) false true (p 1 1)];
+   Close false; LineTo false [p 4 4]; Close true; MoveTo true [p 5 5]; LineTo true [p 5 5]; Close true].
+Example C02_nonvacuous :
+  grammatical w_all = true /\ no_smooth_after_close w_all = true
+  /\ no_coincident_arc NumQ O w_all = true
+  /\ res_eqb (impl_parse NumQ false false (flatten NumQ w_all) O) (Ok (spec_run NumQ O w_all)) = true
+  /\ List.length (spec_run NumQ O w_all) = 16%nat.
+Proof. vm_compute. repeat split. Qed.
+
+(* ================================================================== *)
+(* The tokenizer                                                       *)
+(* ================================================================== *)
+
+(* FLOAT_RE matched with Python's backtracking priorities = a deterministic scanner *)
+Theorem C02_float_re_is_scanner : forall s, match_float s = scan_float s.
+Proof. exact match_float_scan. Qed.
+
+(* every numeral of the language of FLOAT_RE is read back whole when what
+   follows cannot extend it *)
+Theorem C02_scan_numeral : forall n rest,
+    numeral_wf n = true -> follow_ok n rest -> scan_float (ntext n ++ rest) = Some rest.
+Proof. exact scan_numeral. Qed.
+
+(* lexing a rendering gives back the token list: all separator policies *)
+Theorem C02_lex_render : forall items trail,
+    items_ok None items = true -> forallb is_sepchar trail = true ->
+    lex (render items trail) = map tok_of_stok (map snd items).
+Proof. exact lex_render. Qed.
+
+Theorem C02_spellings : forall items1 trail1 items2 trail2,
+    items_ok None items1 = true -> forallb is_sepchar trail1 = true ->
+    items_ok None items2 = true -> forallb is_sepchar trail2 = true ->
+    map tok_of_stok (map snd items1) = map tok_of_stok (map snd items2) ->
+    lex (render items1 trail1) = lex (render items2 trail2).
+Proof. exact spellings_same_tokens. Qed.
+
+Theorem C02_spellings_same_path : forall none_ok coinc_ok pos0 items1 trail1 items2 trail2,
+    items_ok None items1 = true -> forallb is_sepchar trail1 = true ->
+    items_ok None items2 = true -> forallb is_sepchar trail2 = true ->
+    map tok_of_stok (map snd items1) = map tok_of_stok (map snd items2) ->
+    impl_parse NumQ none_ok coinc_ok (lex (render items1 trail1)) pos0
+    = impl_parse NumQ none_ok coinc_ok (lex (render items2 trail2)) pos0.
+Proof. exact spellings_same_path. Qed.
+
+(* non-vacuity: "M1.5-2e1,.5.25 +3z" is a rendering covered by the theorem
+   (no separator before a sign, '.5' glued to '1.5'-like '.5', comma, blank) *)
+Local Open Scope char_scope.
+Definition d1 : ascii := "1". Definition d2 : ascii := "2". Definition d3 : ascii := "3".
+Definition d5 : ascii := "5". Definition d0 : ascii := "0".
+Definition ex_items : list item :=
+  [([], SCmd cM true);
+   ([], SNum (mkNumeral None [d1] [d5] None));                                (* 1.5 *)
+   ([], SNum (mkNumeral (Some true) [d2] [] (Some ("e", None, [d1]))));       (* -2e1 *)
+   ([","], SNum (mkNumeral None [] [d5] None));                               (* .5 *)
+   ([], SNum (mkNumeral None [] [d2; d5] None));                              (* .25 *)
+   ([" "], SNum (mkNumeral (Some false) [d3] [] None));                       (* +3 *)
+   ([], SCmd cZ false)].
+Example C02_render_nonvacuous :
+  items_ok None ex_items = true
+  /\ string_of_list_ascii (render ex_items []) = "M1.5-2e1,.5.25 +3z"%string
+  /\ toks_eqb NumQ (lex (render ex_items []))
+       [TCmd cM true; TNum (qc 3 2); TNum (qc (-20) 1); TNum (qc 1 2); TNum (qc 1 4);
+        TNum (qc 3 1); TCmd cZ false] = true.
+Proof. vm_compute. repeat split. Qed.
+
+(* spellings that are legal SVG but outside the theorem, and mis-read by the
+   pinned tokenizer *)
+Definition intended_arc : list (tok Qc) :=
+  [TCmd cM true; TNum (q 0); TNum (q 0); TCmd cA true; TNum (q 1); TNum (q 1); TNum (q 0);
+   TNum (q 1); TNum (q 1); TNum (q 2); TNum (q 0)].
+Theorem C02_adjacent_arc_flags_refuted :
+  (* with separators the arc is read as intended ... *)
+  toks_eqb NumQ (lex_string "M0 0 A1,1 0 1 1 2,0") intended_arc = true
+  (* ... "11" is read as the number eleven: 6 numbers instead of 7 *)
+  /\ toks_eqb NumQ (lex_string "M0 0 A1,1 0 11 2,0")
+       [TCmd cM true; TNum (q 0); TNum (q 0); TCmd cA true; TNum (q 1); TNum (q 1); TNum (q 0);
+        TNum (q 11); TNum (q 2); TNum (q 0)] = true
+  /\ parse_string false false "M0 0 A1,1 0 11 2,0" O = Err IndexError.
+Proof. vm_compute. repeat split. Qed.
+
+Theorem C02_trailing_dot_exponent_refuted :
+  (* 1.e3 is the number 1000 in the SVG grammar; FLOAT_RE reads 1 and 3 *)
+  toks_eqb NumQ (lex_string "1.e3") [TNum (q 1); TNum (q 3)] = true
+  /\ toks_eqb NumQ (lex_string "1.0e3") [TNum (q 1000)] = true
+  (* a bare trailing dot is harmless *)
+  /\ toks_eqb NumQ (lex_string "1. 2.") [TNum (q 1); TNum (q 2)] = true.
+Proof. vm_compute. repeat split. Qed.
+
+Print Assumptions C02_refines_general.
+Print Assumptions C02_refines.
+Print Assumptions C02_refines_partial.
+Print Assumptions C02_refines_partial_Q.
+Print Assumptions C02_refines_partial_R.
+Print Assumptions C02_zero_radius_arc_is_line.
+Print Assumptions C02_arc_is_arc.
+Print Assumptions C02_close_at_start_adds_nothing.
+Print Assumptions C02_close_elsewhere_adds_line.
+Print Assumptions C02_smooth_fallback.
+Print Assumptions C02_smooth_reflects.
+Print Assumptions C02_t_fallback.
+Print Assumptions C02_lineto_rel_abs.
+Print Assumptions C02_moveto_extra_pairs_are_lineto.
+Print Assumptions C02_repeated_letter_same_path.
+Print Assumptions C02_spec_repeated_letter.
+Print Assumptions C02_S_after_Z_refuted.
+Print Assumptions C02_T_after_Z_refuted.
+Print Assumptions C02_arc_coincident_refuted.
+Print Assumptions C02_refuted_on_strings.
+Print Assumptions C02_float_re_is_scanner.
+Print Assumptions C02_scan_numeral.
+Print Assumptions C02_lex_render.
+Print Assumptions C02_spellings.
+Print Assumptions C02_spellings_same_path.
+Print Assumptions C02_adjacent_arc_flags_refuted.
+Print Assumptions C02_trailing_dot_exponent_refuted.
